@@ -647,6 +647,19 @@ pub fn make_n(rng: &mut StdRng, pool: &mut Pool, shape: &str, bits: u32) -> (Uin
             let q = big_prime(pool, rest - (rest / 2).max(8));
             known(vec![reg_small(pool, f), p, q])
         }
+        "p3q" => {
+            let f = loop {
+                let c = rng.gen_range(201u64..1000);
+                if is_prime_u64(c) {
+                    break c;
+                }
+            };
+            let p = reg_small(pool, f);
+            // bits bounds the whole (reduced) n: selectors assert on it
+            let used = (Uint::from(f) * Uint::from(f) * Uint::from(f)).bits();
+            let q = big_prime(pool, bits.saturating_sub(used).max(8));
+            known(vec![p, p, p, q])
+        }
         "twotiny" => {
             // 2..3 distinct primes just above the trial-division bound, times one large prime
             let tiny: Vec<u64> = (211u64..400).filter(|&c| is_prime_u64(c)).collect();
@@ -658,7 +671,8 @@ pub fn make_n(rng: &mut StdRng, pool: &mut Pool, shape: &str, bits: u32) -> (Uin
                     ps.push(c);
                 }
             }
-            ps.push(big_prime(pool, bits.saturating_sub(8 * k as u32).max(10)));
+            let used = ps.iter().fold(Uint::ONE, |a, b| a * *b).bits();
+            ps.push(big_prime(pool, bits.saturating_sub(used).max(8)));
             known(ps)
         }
         "smallcof" => {
@@ -802,6 +816,8 @@ pub fn works_from_shapes(shapes: &[Value], seed: u64, salt: &str, reps: u64, poo
         let bits = sh["bits"].as_u64().unwrap() as u32;
         let alg = sh["alg"].as_str().unwrap();
         let deterministic = matches!(shape, "zero" | "one" | "two" | "pow2" | "ones" | "over_pow2");
+        // shapes whose interesting branch is only taken on a fraction of the inputs get more instances
+        let reps = if shape == "p3q" && matches!(alg, "qs" | "mpqs" | "siqs") { 4 * reps } else { reps };
         for rep in 0..(if deterministic { 1 } else { reps }) {
             let (n, primes) = if matches!(shape, "qP" | "bigprime") || shape.starts_with("over_") {
                 (make_limit(&mut rng, &mut cache, shape, bits), None)
